@@ -787,3 +787,64 @@ impl Drop for Scratch {
 		let _ = std::fs::remove_dir_all(&self.path);
 	}
 }
+
+// ---------------------------------------------------------------------------------------------
+// sinks and sources with short writes / short reads (as pipes, sockets and compressed streams behave):
+// `Write::write` and `Read::read` may transfer fewer bytes than offered, the code under test must cope
+
+pub struct ShortWrites {
+	pub out: Vec<u8>,
+	step: usize,
+}
+
+impl ShortWrites {
+	pub fn new() -> ShortWrites {
+		ShortWrites { out: Vec::new(), step: 3 }
+	}
+}
+
+impl Default for ShortWrites {
+	fn default() -> Self {
+		Self::new()
+	}
+}
+
+impl std::io::Write for ShortWrites {
+	fn write(&mut self, buf: &[u8]) -> std::io::Result<usize> {
+		let n = buf.len().min(self.step);
+		self.out.extend_from_slice(&buf[..n]);
+		self.step = self.step % 7 + 1;
+		Ok(n)
+	}
+	fn flush(&mut self) -> std::io::Result<()> {
+		Ok(())
+	}
+}
+
+pub struct ShortReads<'a> {
+	inner: std::io::Cursor<&'a [u8]>,
+	step: usize,
+}
+
+impl<'a> ShortReads<'a> {
+	pub fn new(data: &'a [u8]) -> ShortReads<'a> {
+		ShortReads { inner: std::io::Cursor::new(data), step: 2 }
+	}
+	pub fn position(&self) -> u64 {
+		self.inner.position()
+	}
+}
+
+impl std::io::Read for ShortReads<'_> {
+	fn read(&mut self, buf: &mut [u8]) -> std::io::Result<usize> {
+		let n = buf.len().min(self.step);
+		self.step = self.step % 5 + 1;
+		std::io::Read::read(&mut self.inner, &mut buf[..n])
+	}
+}
+
+impl std::io::Seek for ShortReads<'_> {
+	fn seek(&mut self, pos: std::io::SeekFrom) -> std::io::Result<u64> {
+		std::io::Seek::seek(&mut self.inner, pos)
+	}
+}
